@@ -535,10 +535,8 @@ def forms_stream(ctx, lcp_lemke, PivOptions, cases, DEF_TOLS, classes):
                         "arrays / Python scalars answers z=%s status=%d num_iter=%d" % (
                             fname, np.asarray(z).tolist(), res.status, res.num_iter, can.z.tolist(), can.status,
                             can.num_iter))
-                if Mdt.startswith("uint"):
-                    finding(ctx, "uint_M_negation_wraps", what, rp)
-                else:
-                    ctx.spec_fail("argument_form", what, rp)
+                # (unsigned M used to wrap in `-M[i, j]`: fixed f76127e, `0. - M[i, j]`; own key on regression)
+                ctx.spec_fail("uint_M_negation_wraps" if Mdt.startswith("uint") else "argument_form", what, rp)
             # inputs untouched
             if (_bits(Mf), _bits(qf), None if df is None else _bits(df)) != before:
                 ctx.spec_fail("inputs_mutated", "form [%s]: M, q or d modified by the call" % fname, rp)
@@ -556,7 +554,7 @@ def forms_stream(ctx, lcp_lemke, PivOptions, cases, DEF_TOLS, classes):
             if res.success and not np.all(np.isfinite(np.asarray(z, dtype=float))):
                 ctx.spec_fail("success_solves_form", "form [%s]: success with non-finite z %s" % (
                     fname, np.asarray(z).tolist()), rp)
-            elif res.success and tols[0] != 0.0 and not Mdt.startswith("uint"):
+            elif res.success and tols[0] != 0.0:
                 Mq = [[Fraction(float(v)) for v in row] for row in Mv]
                 qq = [Fraction(float(v)) for v in qc]
                 mz, mw, comp = lcp_residuals(Mq, qq, [Fraction(float(v)) for v in z])
@@ -566,10 +564,10 @@ def forms_stream(ctx, lcp_lemke, PivOptions, cases, DEF_TOLS, classes):
                     ctx.spec_fail("success_solves_form", "form [%s]: success but min z=%g, min(Mz+q)=%g, |z.w|=%g" % (
                         fname, float(mz), float(mw), float(comp)), rp)
             if mi_val is None and piv in (None, "default", "np64") and fcls in ("pd", "p", "cop") \
-                    and int(res.status) != 0 and not Mdt.startswith("uint"):
+                    and int(res.status) != 0:
                 ctx.spec_fail("solvable_class_form", "form [%s]: status %d on a %s matrix" % (fname, res.status, fcls), rp)
             # the model on the values the form denotes
-            if not Mdt.startswith("uint"):
+            if True:
                 dd = np.ones(n) if dcan is None else dcan
                 mi_eff = 10 ** 6 if mi_can is None else mi_can
                 if int(res.status) != 1 and mi_eff > int(res.num_iter) + 1000:
